@@ -8,7 +8,7 @@ ID = "C29"
 LEAN_MODULES = ["MjwVerif.Props.C29"]
 GEN_FUNCS = ["sleep._wake_tree", "sleep._tree_can_sleep", "sleep._wake_kernel", "sleep._wake_collision_kernel", "sleep._wake_tendon_kernel", "sleep._wake_equality_kernel",
              "sleep._sweep_awake_trees", "sleep._check_island_can_sleep", "sleep._build_cycles", "sleep._update_sleep_trees", "sleep._update_sleep_dofs", "sleep._zero_sleep_counters"]
-KERNELS = ["sleep._wake_kernel", "sleep._wake_collision_kernel", "sleep._sweep_awake_trees", "sleep._check_island_can_sleep", "sleep._build_cycles", "sleep._update_sleep_trees",
+KERNELS = ["sleep._wake_kernel", "sleep._wake_collision_kernel", "sleep._wake_tendon_kernel", "sleep._wake_equality_kernel", "sleep._sweep_awake_trees", "sleep._check_island_can_sleep", "sleep._build_cycles", "sleep._update_sleep_trees",
            "sleep._update_sleep_dofs"]
 LEVEL_TEXT = ("Theorems about the sleep kernels regenerated from sleep.py on every run (tier-B translation), for every number of trees, every state and every task order: the generated kernels "
               "refine a hand-written list model (Model/Sleep.lean): `_wake_tree` stores the wake value into exactly the cycle of the addressed tree; well-formedness of tree_asleep (every "
@@ -19,10 +19,16 @@ LEVEL_TEXT = ("Theorems about the sleep kernels regenerated from sleep.py on eve
               "values are not: machine-checked witness). `sleeping_tree_frozen_partial`: a sleeping tree's dofs are not in the awake list, build_cycles stores exact zeros in qvel/qacc, and with "
               "qvel = qacc = 0 Euler keeps hinge/slide coordinates. On the real code: random multi-tree scenes with contacts, welds and limited tendons stepped for long histories with user "
               "perturbations next to mujoco.mj_step, checking well-formedness, frozenness (bitwise), falls-asleep preconditions, wake-on-perturbation and the awake-set evolution against MuJoCo, "
-              "under several task orders.")
+              "under several task orders. Waking through equalities is exercised for EVERY kind and addressing mode in every run (forced rotation, not chance): connect and weld given by "
+              "body1/body2 and by site1/site2 (sites on different trees, optionally on child bodies and behind a decoy tree so that site, body and tree ids all differ, either argument order), "
+              "joint equalities with two joints and with one, tendon equalities over 2 and over 4 trees. The trees fall asleep while the equality is inactive (separate sleep cycles: only the "
+              "equality can carry the wake-up), then eq_active is set in world 0 (a second world keeps it inactive: control) and the tree of object 1, of object 2, or no tree gets a velocity "
+              "kick; the awake set is compared in lock-step with mujoco.mj_step for the 8 steps in which no tree can fall asleep again (no tolerance question). mujoco.mj_step refuses active "
+              "tendon equalities next to sleeping trees, so for those the reference is the property statement (every tree of both tendons awake, all others asleep).")
 LEVEL_NOTE = ("C29_partial: frozenness across the whole step (that no other kernel writes a sleeping tree's qpos/qvel) and the free/ball joint case are checked on the real code only; the chain "
               "tree asleep => dof not compacted => qacc = 0 is proved in C38's theorems and not re-chained here. Trusted: Lean kernel, tier-B translator (interception), schedule hook.")
 ASSUMPTIONS = ["the translator passes the pre-task array to each `_wake_tree` call inside one task (tendon/equality kernels' exact write lists depend on it; the launch-level wake theorems do not)",
+               "tendon equalities: no MuJoCo reference exists with sleeping enabled (mj_wakeEquality raises); the expected awake set after a kick is taken from the property statement",
                "MuJoCo comparison skips steps where, in the 12-step window that decides them, a velocity measure is within 2% of the tolerance or the two trajectories fall on different sides of it"]
 VERIF = os.path.abspath(os.path.join(os.path.dirname(__file__), "..", ".."))
 
@@ -102,7 +108,220 @@ def _tree_qpos_slices(mjm):
   return out
 
 
-def _run(ctx, ncases, nsteps, rec):
+EQ_KINDS = ["weld-site", "connect-body", "joint", "connect-site", "weld-body", "tendon", "tendon4", "joint1"]
+
+
+def _eq_scene(kind, rng, decoy, child, swap, active0):
+  """two trees A, B (plus an optional decoy tree in front, which shifts body/site/tree ids apart) that are at rest from step 0, joined by
+  one equality of `kind` that is satisfied in the initial configuration; returns (xml, sleep tolerance)"""
+  tol = float(rng.choice([1e-2, 5e-2]))
+  act = "" if active0 else ' active="false"'
+  solref = f' solref="{rng.choice([0.04, 0.06])} 1"'
+  bodies, tendon = [], ""
+  if decoy:
+    bodies.append('<body name="dec" pos="-1.6 0 .1"><freejoint/><geom type="box" size=".1 .1 .1"/><site name="sd0"/><site name="sd1" pos="0 0 .1"/></body>')
+  if kind in ("weld-site", "weld-body", "connect-site", "connect-body"):
+    dx = float(rng.choice([0.8, 1.0, 1.2]))
+    h = dx / 2
+
+    def box(n, x, sx):
+      site = f'<site name="s{n}" pos="{sx} 0 0"/>'
+      inner = f'<body name="c{n}" pos="0 0 0"><geom type="sphere" size=".03" pos="0 0 .13" contype="0" conaffinity="0"/>{site}</body>' if child else site
+      return f'<body name="r{n}" pos="{x} 0 .1"><freejoint/><geom type="box" size=".1 .1 .1"/><site name="x{n}" pos="0 0 .1"/>{inner}</body>'
+    bodies += [box("A", 0.0, h), box("B", dx, -h)]
+    o1, o2 = ("B", "A") if swap else ("A", "B")
+    pre = "c" if child else "r"
+    if kind == "weld-site":
+      eq = f'<weld site1="s{o1}" site2="s{o2}"{solref}{act}/>'
+    elif kind == "connect-site":
+      eq = f'<connect site1="s{o1}" site2="s{o2}"{solref}{act}/>'
+    elif kind == "weld-body":
+      eq = f'<weld body1="{pre}{o1}" body2="{pre}{o2}"{solref}{act}/>'
+    else:
+      eq = f'<connect body1="{pre}{o1}" body2="{pre}{o2}" anchor="{-h if swap else h} 0 0"{solref}{act}/>'
+  else:
+    # horizontal damped joints away from the floor: no gravity load, exactly at rest
+    names = ["A", "B", "C", "D"] if kind == "tendon4" else ["A", "B"]
+    for i, n in enumerate(names):
+      damp = f'{rng.uniform(1, 4):.2f}'
+      if child:
+        bodies.append(f'<body name="r{n}" pos="{0.7 * i} .9 .5"><joint name="q{n}" type="slide" axis="0 1 0" damping="{damp}"/><geom size=".06"/>'
+                      f'<body name="c{n}" pos=".1 0 0"><joint name="j{n}" type="hinge" axis="0 0 1" damping="{damp}"/><geom size=".04" pos=".1 0 0"/></body></body>')
+      else:
+        bodies.append(f'<body name="r{n}" pos="{0.7 * i} .9 .5"><joint name="j{n}" type="slide" axis="1 0 0" damping="{damp}"/><geom size=".06"/></body>')
+    o1, o2 = ("B", "A") if swap else ("A", "B")
+    if kind == "joint":
+      eq = f'<joint joint1="j{o1}" joint2="j{o2}" polycoef="0 1 0 0 0"{solref}{act}/>'
+    elif kind == "joint1":
+      eq = f'<joint joint1="j{o1}" polycoef="0 0 0 0 0"{solref}{act}/>'
+    elif kind == "tendon":
+      tendon = '<tendon><fixed name="tA"><joint joint="jA" coef="1"/></fixed><fixed name="tB"><joint joint="jB" coef="1"/></fixed></tendon>'
+      eq = f'<tendon tendon1="t{o1}" tendon2="t{o2}" polycoef="0 1 0 0 0"{solref}{act}/>'
+    else:
+      tendon = ('<tendon><fixed name="tA"><joint joint="jA" coef="1"/><joint joint="jB" coef="-1"/></fixed>'
+                '<fixed name="tB"><joint joint="jC" coef="1"/><joint joint="jD" coef="-1"/></fixed></tendon>')
+      eq = f'<tendon tendon1="t{o1}" tendon2="t{o2}" polycoef="0 1 0 0 0"{solref}{act}/>'
+  xml = (f'<mujoco><option timestep="0.005" iterations="12" sleep_tolerance="{tol}"><flag sleep="enable"/></option>'
+         f'<worldbody><geom type="plane" size="10 10 .1"/>{"".join(bodies)}</worldbody>{tendon}<equality>{eq}</equality></mujoco>')
+  return xml, tol
+
+
+def _eq_cases(ctx, acc, mjw, sched, rng, ncases, orders):
+  """waking through an equality of every kind and addressing mode, lock-step against mujoco.mj_step.
+
+  The trees fall asleep while the equality is inactive (so each is a sleep cycle of its own, the configuration in which only the equality can
+  carry the wake-up), then the equality is activated in world 0 (world 1, when present, keeps it inactive: the control) and one tree, or none,
+  gets a velocity kick. For the next 8 steps no tree can fall asleep again (a woken tree restarts its countdown at -(1+mjMINAWAKE)), so the
+  awake set must equal MuJoCo's at every step, with no tolerance question."""
+  import mujoco
+  NSETTLE, NAFTER = 60, 8
+  for c in range(ncases):
+    kind = EQ_KINDS[c % 6] if c < 6 else EQ_KINDS[(c + ctx.seed) % len(EQ_KINDS)]
+    active0 = c >= 6 and (c + ctx.seed) % 4 == 0
+    kick = ["obj1", "obj2", "none"][(c // 6 + c + ctx.seed) % 3]
+    decoy, child, swap, two = (bool(rng.random() < 0.5) for _ in range(4))
+    xml, tol = _eq_scene(kind, rng, decoy, child, swap, active0)
+    mag = float(rng.uniform(0.3, 0.8))
+    order = orders[(c + ctx.seed) % len(orders)]
+    sched.set_order(order)
+    mjm = mujoco.MjModel.from_xml_string(xml)
+    nt, nw = mjm.ntree, (2 if two else 1)
+    # the trees of the equality's two objects, from the compiled model
+    ot, i1, i2 = int(mjm.eq_objtype[0]), int(mjm.eq_obj1id[0]), int(mjm.eq_obj2id[0])
+    is_tendon = int(mjm.eq_type[0]) == int(mujoco.mjtEq.mjEQ_TENDON)
+    tendon_trees = set()
+    if is_tendon:
+      def ttrees(tid):
+        return [int(mjm.body_treeid[mjm.jnt_bodyid[mjm.wrap_objid[w]]]) for w in range(mjm.tendon_adr[tid], mjm.tendon_adr[tid] + mjm.tendon_num[tid])]
+      tendon_trees = set(ttrees(i1)) | set(ttrees(i2))
+      t1, t2 = ttrees(i1)[0], ttrees(i2)[0]
+    elif int(mjm.eq_type[0]) == int(mujoco.mjtEq.mjEQ_JOINT):
+      t1 = int(mjm.body_treeid[mjm.jnt_bodyid[i1]])
+      t2 = int(mjm.body_treeid[mjm.jnt_bodyid[i2]]) if i2 >= 0 else -1
+    elif ot == int(mujoco.mjtObj.mjOBJ_SITE):
+      t1, t2 = int(mjm.body_treeid[mjm.site_bodyid[i1]]), int(mjm.body_treeid[mjm.site_bodyid[i2]])
+    else:
+      t1, t2 = int(mjm.body_treeid[i1]), int(mjm.body_treeid[i2])
+    if kick == "obj2" and t2 < 0:
+      kick = "obj1"
+    info = dict(xml=xml, kind=kind, order=order, kick=kick, kick_qvel=mag, nworld=nw, equality_active_from_start=active0, eq_trees=[t1, t2])
+    if (mjm.tree_sleep_policy == int(mujoco.mjtSleepPolicy.mjSLEEP_AUTO_NEVER)).any():
+      acc.hit(f"eq:{kind}:policy-never(mujoco does not let these trees sleep)")
+      continue
+    mjds = [mujoco.MjData(mjm) for _ in range(nw)]
+    for x in mjds:
+      mujoco.mj_forward(mjm, x)
+    m = mjw.put_model(mjm)
+    d = mjw.put_data(mjm, mjds[0], nworld=nw, naconmax=100 * nw, njmax=200)
+
+    def step_all(skip0=False):
+      for x in mjds[1 if skip0 else 0:]:
+        mujoco.mj_step(mjm, x)
+      mjw.step(m, d)
+      acc.evals += 1
+      ta = d.tree_asleep.numpy().copy()
+      qv = d.qvel.numpy()
+      ok = not (d.overflow.numpy() & 0x1FF).any() and np.isfinite(qv).all() and all(np.isfinite(x.qpos).all() and np.abs(x.qvel).max() < 1e3 for x in mjds)
+      return ta, np.stack([x.tree_asleep.copy() for x in mjds]), qv, ok
+
+    # phase 1: fall asleep (each tree on its own cycle unless the equality is active from the start)
+    settled, bad, early_seen = False, False, False
+    meas = []
+    prev_qv = d.qvel.numpy().copy()
+    for i in range(NSETTLE):
+      meas.append(([[_measure(mjm, x.qvel, t) for t in range(nt)] for x in mjds], [[_measure(mjm, prev_qv[w], t) for t in range(nt)] for w in range(nw)]))
+      ta, tm, prev_qv, ok = step_all()
+      if not ok:
+        bad = True
+        break
+      if not all(_wellformed(ta[w]) for w in range(nw)):
+        acc.find(f"tree_asleep {ta.tolist()} is not well-formed (a sleeping entry is not on a closed cycle)", "sleep.sleep/_build_cycles", "not-wellformed", step=i, **info)
+      if not np.array_equal(ta >= 0, tm >= 0):
+        diff = np.argwhere((ta >= 0) != (tm >= 0))
+        if all(ta[w, t] >= 0 and tm[w, t] >= -2 for w, t in diff):
+          if early_seen:
+            continue
+          early_seen = True
+          acc.hit("one-step-early")
+          acc.find(f"(world, tree) {diff.tolist()} asleep after step {i} while MuJoCo is still at the last stage of its countdown: the quiet-step count uses the velocity AFTER integration, MuJoCo's uses it BEFORE",
+                   "forward._advance/sleep.sleep", "asleep-one-step-before-mujoco", step=i, **info)
+        else:
+          amb = any(abs(v - tol) < 0.02 * tol for j in range(max(0, i - 12), i + 1) for side in meas[j] for row in side for v in row) or \
+                any((a < tol) != (b < tol) for j in range(max(0, i - 12), i + 1) for ra, rb in zip(*meas[j]) for a, b in zip(ra, rb))
+          if amb:
+            acc.hit("evolution-ambiguous-skipped")
+          else:
+            acc.find(f"awake/asleep evolution differs from MuJoCo at step {i} while settling: warp tree_asleep {ta.tolist()} mujoco {tm.tolist()}", "sleep", "evolution-differs", step=i, **info)
+          bad = True
+          break
+      if (ta >= 0).all() and (tm >= 0).all():
+        settled = True
+        break
+    if bad or not settled:
+      acc.hit(f"eq:{kind}:not-settled")
+      continue
+    cyc = "one-cycle" if (t2 >= 0 and _same_cycle(tm[0], t1, t2)) else "separate-cycles"
+    acc.hit(f"eq:{kind}:{cyc}:kick-{kick}" + (":control-world" if two else ""))
+    info["tree_asleep_after_settling"] = dict(warp=ta.tolist(), mujoco=tm.tolist())
+    # phase 2: activate (world 0 only) and kick
+    if not active0:
+      ea = d.eq_active.numpy()
+      ea[0, 0] = True
+      d.eq_active.assign(ea)
+      mjds[0].eq_active[0] = 1
+    if kick != "none":
+      kt = t1 if kick == "obj1" else t2
+      a = int(mjm.tree_dofadr[kt])
+      qv = d.qvel.numpy()
+      qv[:, a] += mag
+      d.qvel.assign(qv)
+      for x in mjds:
+        x.qvel[a] += mag
+    # mujoco.mj_step refuses an ACTIVE tendon equality next to sleeping trees (mj_wakeEquality: "tendon equality does not yet support sleeping"):
+    # for that kind the reference of world 0 is the property statement itself: with one of the coupled trees kicked awake, every tree of
+    # both tendons is awake after the step and stays awake for the 8 steps, every other tree stays asleep. (No expectation without a kick.)
+    no_mj = is_tendon
+    if no_mj:
+      acc.hit(f"eq:{kind}:mujoco-refuses-active-tendon-equality-with-sleep(reference = property statement)")
+      if kick == "none":
+        continue
+      exp0 = np.ones(nt, dtype=bool)
+      exp0[sorted(tendon_trees)] = False
+    for i in range(NAFTER):
+      ta, tm, _, ok = step_all(skip0=no_mj)
+      if no_mj:
+        tm[0] = np.where(exp0, 0, -1)
+      if not ok:
+        acc.hit("overflow-or-unstable-history-cut")
+        break
+      if not all(_wellformed(ta[w]) for w in range(nw)):
+        acc.find(f"tree_asleep {ta.tolist()} is not well-formed (a sleeping entry is not on a closed cycle)", "sleep.sleep/_build_cycles", "not-wellformed", step_after=i, **info)
+      if i == 0:
+        acc.hit(f"eq:{kind}:{cyc}:kick-{kick}:reference-awake-{int((tm[0] < 0).sum())}-of-{nt}")
+      if not np.array_equal(ta[0] >= 0, tm[0] >= 0):
+        acc.find(f"{kind} equality between trees {t1},{t2} activated after both fell asleep separately, kick on {kick}: {i + 1} steps later warp has asleep = {(ta[0] >= 0).astype(int).tolist()} "
+                 f"(tree_asleep {ta[0].tolist()}), mujoco.mj_step {(tm[0] >= 0).astype(int).tolist()} ({tm[0].tolist()})", "sleep._wake_equality_kernel", "equality-wake-differs", step_after=i, **info)
+        break
+      if nw > 1 and not np.array_equal(ta[1] >= 0, tm[1] >= 0):
+        acc.find(f"world 1 keeps the {kind} equality inactive, kick on {kick}: {i + 1} steps later warp has asleep = {(ta[1] >= 0).astype(int).tolist()}, mujoco.mj_step {(tm[1] >= 0).astype(int).tolist()} "
+                 "(world 0 has it active)", "sleep._wake_equality_kernel", "inactive-equality-world-differs", step_after=i, **info)
+        break
+    acc.distinct.add(("eq", kind, cyc, kick, decoy, child, swap, two))
+  sched.set_order("id")
+
+
+def _same_cycle(ta, a, b):
+  cur = a
+  for _ in range(len(ta) + 1):
+    if cur == b:
+      return True
+    cur = int(ta[cur])
+    if cur < 0 or cur == a:
+      break
+  return a == b
+
+
+def _run(ctx, ncases, nsteps, rec, neq=6):
   import mujoco
   from harness import sched
   sched.install(os.path.join(VERIF, ".cache", "warp-sched"))
@@ -235,6 +454,7 @@ def _run(ctx, ncases, nsteps, rec):
           break
       acc.distinct.add((c, order, tuple(sorted(perts))))
       acc.sample({"ntree": int(nt), "order": order, "perturbations": {str(k): list(v) for k, v in perts.items()}, "asleep_fraction": float(np.mean(hist_w)) if L else 0.0})
+    _eq_cases(ctx, acc, mjw, sched, rng, neq, ORDERS)
     sched.set_order("id")
 
   if rec:
@@ -248,14 +468,18 @@ def _run(ctx, ncases, nsteps, rec):
 RULE = ("random scenes of 2-5 trees (free boxes/spheres on a floor, some stacked; damped slide and 2-hinge trees; optional weld/connect between trees, optional limited spatial tendon; an actuator on "
         "one tree (compiler policy AUTO_NEVER); both cones) stepped next to mujoco.mj_step with 1-4 one-step perturbations (xfrc_applied, qfrc_applied, qvel kick) under a random task order; per step: "
         "well-formed cycles, flags consistent, sleeping trees bitwise frozen with zero velocity, fell-asleep only from countdown -2/-1 and never with policy NEVER, perturbed sleeping tree awake; "
-        "per history: awake set vs MuJoCo's step by step; distinct = (case, order, perturbation steps)")
+        "per history: awake set vs MuJoCo's step by step; distinct = (case, order, perturbation steps). Plus forced equality-wake cases (6 per quick run = every kind of weld-site, connect-body, "
+        "joint, connect-site, weld-body, tendon; 24 in thorough/search adding 4-tree tendon pairs, single-joint equalities and equalities active from the start): trees at rest fall asleep with "
+        "the equality inactive, then eq_active[world 0] = 1 and a qvel kick on the tree of obj1 / obj2 / none (rotation by case and seed), decoy tree / child bodies / swapped arguments / "
+        "second control world at random; tree_asleep >= 0 compared with mujoco.mj_step for 8 steps (settling phase: lock-step too, the recorded one-step-early signature reported as such); "
+        "distinct = (kind, cycle structure, kick, decoy, child, swap, control world)")
 
 
 def correspondence(ctx):
-  acc, kc = _run(ctx, 16 if ctx.thorough else 4, 300 if ctx.thorough else 150, True)
+  acc, kc = _run(ctx, 16 if ctx.thorough else 4, 300 if ctx.thorough else 150, True, neq=24 if ctx.thorough else 6)
   return result(acc, RULE, kc=kc)
 
 
 def search(ctx, breaks):
-  acc, _ = _run(ctx, 16, 250, False)
-  return search_result(acc, "mujoco.mj_step awake/asleep evolution + per-step invariants")
+  acc, _ = _run(ctx, 16, 250, False, neq=24)
+  return search_result(acc, "mujoco.mj_step awake/asleep evolution + per-step invariants + forced equality-wake cases of every kind (lock-step awake set)")
